@@ -65,6 +65,10 @@ func checkConverge(cs *Case) (out outcome) {
 			return
 		}
 		out.results = append(out.results, ra)
+		if ra != rb && cs.Mask.MaskConflictErrorChoice && o.K == "createevent" && isDDLConflict(ra) && isDDLConflict(rb) {
+			out.maskedDiffs["ddl-conflict-error-choice-by-map-order"]++
+			rb = ra
+		}
 		if ra != rb {
 			out.violation = fmt.Sprintf("op %d (%s): replicas that applied the same log answered differently: A=%q B=%q", i, o, ra, rb)
 			return
@@ -98,7 +102,9 @@ func checkConverge(cs *Case) (out outcome) {
 				out.violation = fmt.Sprintf("restored replica C panicked applying op %d (%s), A did not: %s", i, o, pc)
 				return
 			}
-			if rc != ra && cs.Mask.MaskEventPre && o.K == "createevent" {
+			if rc != ra && cs.Mask.MaskConflictErrorChoice && o.K == "createevent" && isDDLConflict(ra) && isDDLConflict(rc) {
+				out.maskedDiffs["ddl-conflict-error-choice-by-map-order"]++
+			} else if rc != ra && cs.Mask.MaskEventPre && o.K == "createevent" {
 				// known class: the restored event carries currState as preState, so "same event again?" is answered differently
 				out.maskedDiffs["event-prestate-restored-from-currstate"]++
 			} else if rc != ra {
@@ -128,6 +134,10 @@ func checkConverge(cs *Case) (out outcome) {
 	return
 }
 
+func isDDLConflict(res string) bool {
+	return res == "error: retention policy is being delete" || res == "error: measurement is being delete"
+}
+
 func classifyMasked(a, c *metasvc.VerifFSM, m mg.DumpOpts) []string {
 	var out []string
 	try := func(name string, o mg.DumpOpts) {
@@ -152,7 +162,7 @@ func classifyMasked(a, c *metasvc.VerifFSM, m mg.DumpOpts) []string {
 
 // mainMask is the set of known-finding classes the main campaign leaves out of the A/C comparison (each has a replay file that
 // shows it on its own).
-var mainMask = mg.DumpOpts{MaskCQLastRun: true, MaskMstID: true, MaskEventPre: true}
+var mainMask = mg.DumpOpts{MaskCQLastRun: true, MaskMstID: true, MaskEventPre: true, MaskConflictErrorChoice: true}
 
 func envMask() mg.DumpOpts {
 	m := mainMask
@@ -196,7 +206,7 @@ func runConverge(t *rapid.T, c *ev.Case, campaign string, prof mg.Profile, maxLe
 	// a fourth replica for free: the generator's own instance applied the same log
 	if out.violation == "" {
 		for i := range out.results {
-			if out.results[i] != g.Res[i] {
+			if out.results[i] != g.Res[i] && !(cs.Mask.MaskConflictErrorChoice && g.Ops[i].K == "createevent" && isDDLConflict(out.results[i]) && isDDLConflict(g.Res[i])) {
 				out.violation = fmt.Sprintf("op %d (%s): replicas that applied the same log answered differently: %q vs %q (generator-side replica)", i, g.Ops[i], out.results[i], g.Res[i])
 				break
 			}
